@@ -159,10 +159,10 @@ class Rec:
                 return 'E:' + tag
         if isinstance(err, asyncio.CancelledError):
             msg = str(err)
-            if 'interrupted' in msg:
-                return 'Cancelled:interrupted'
-            if 'pending' in msg:
+            if msg.startswith('Cancelled pending handler'):
                 return 'Cancelled:pending'
+            if 'was interrupted because of a parent timeout' in msg:
+                return 'Cancelled:interrupted'
             return 'Cancelled'
         if isinstance(err, TimeoutError):
             return 'Timeout'
